@@ -139,7 +139,13 @@ def run_collection(cid, docs, allow, strict, via, seed, tracer, tmproot):
     texts = render_docs(docs, seed, cid)
     ev = {"id": cid, "docs": docs, "allow": allow, "strict": strict, "via": via, "flags": via,
           "accepted": "ok", "ro_mid": -1, "reader_mids": [], "merged": False, "steps": [], "raised": NONE,
-          "nwarn": 0, "fold_eq": True, "completed": False, "reader_ok": True}
+          "nwarn": 0, "fold_eq": True, "completed": False, "reader_ok": True, "sorted_mids": []}
+    try:
+        with warnings.catch_warnings():
+            warnings.simplefilter("ignore")
+            ev["sorted_mids"] = [o.message_id for o in sorted(MosFile.from_string(t) for t in texts)]
+    except Exception as e:  # noqa: BLE001
+        ev["sorted_mids"] = [-1]
     tmpdir = None
     try:
         with warnings.catch_warnings(record=True) as w:
@@ -306,7 +312,8 @@ def run(report, tier, seed, want, step_props=()):
         c = byc[cid]
         events.append({"id": cid, "docs": c["docs"], "allow": c["allow"], "strict": c["strict"], "via": "strings",
                        "flags": "python-O", "accepted": acc, "ro_mid": ro_mid, "reader_mids": rmids, "merged": False,
-                       "steps": [], "raised": NONE, "nwarn": 0, "fold_eq": True, "completed": False, "reader_ok": True})
+                       "steps": [], "raised": NONE, "nwarn": 0, "fold_eq": True, "completed": False, "reader_ok": True,
+                       "sorted_mids": sorted(d["mid"] for d in c["docs"])})
     shutil.rmtree(tmproot, ignore_errors=True)
     bad, jst = pipeline.judge(events, "coll-" + report.prop, module="Trace_Coll")
     byid = {e["id"]: e for e in events}
